@@ -300,6 +300,12 @@ func checkPartial(ctx *pbt.Ctx, c PartialCase) error {
 		return fmt.Errorf("harness: malformed case")
 	}
 	tx, forms, err := c.build()
+	if err != nil && c.Via == "txjson" {
+		// what the library's JSON decoder makes of a document without "hex" (keeps the lists, drops them,
+		// refuses null slots or an absent txid) is not C02's business: no object, nothing to hash
+		ctx.Discard("txjson: the decoder refused the document")
+		return nil
+	}
 	if err != nil {
 		return fmt.Errorf("harness: cannot build the object: %v", err)
 	}
